@@ -144,6 +144,7 @@ type hist struct {
 	handover [][3]string
 	forced   []txSpec
 	db       dbm.DB
+	cp       *abci.ConsensusParams // given at InitChain (nil: none)
 	stranded *key // a jailed, staked validator whose stake a parameter change has just put below the minimum
 	// genesis accounts whose recorded public key is somebody else's (address -> that key)
 	foreignKey map[string]key
@@ -1146,6 +1147,12 @@ func runHistory(r *rng.R, id, maxBlocks int, wo, wi *bufio.Writer) {
 		fmt.Fprintln(wo, l)
 	}
 	fmt.Fprintf(wo, "SUP %d\n", supply)
+	if r.Chance(1, 3) { // consensus parameters at InitChain that admit ed25519 validator keys only (no block gas limit)
+		h.cp = &abci.ConsensusParams{Block: &abci.BlockParams{MaxBytes: 200000, MaxGas: -1}, Evidence: &abci.EvidenceParams{MaxAge: 100000},
+			Validator: &abci.ValidatorParams{PubKeyTypes: []string{"ed25519"}}}
+		fmt.Fprintln(wo, "PKT ed25519")
+		stats["genesis/consensus-params-admit-ed25519-only"]++
+	}
 	for _, l := range vallines {
 		fmt.Fprintln(wo, l)
 	}
@@ -1160,7 +1167,7 @@ func runHistory(r *rng.R, id, maxBlocks int, wo, wi *bufio.Writer) {
 	h.now = time.Unix(1600000000, int64(r.Intn(1000000000))).UTC()
 	var initRes abci.ResponseInitChain
 	if try(func() {
-		initRes = h.app.InitChain(abci.RequestInitChain{ChainId: simapp.ChainID, Time: time.Unix(1600000000, 0).UTC()})
+		initRes = h.app.InitChain(abci.RequestInitChain{ChainId: simapp.ChainID, Time: time.Unix(1600000000, 0).UTC(), ConsensusParams: h.cp})
 	}) {
 		h.emitDead("INIT")
 		fmt.Fprintln(wo, "E")
@@ -1618,7 +1625,7 @@ func runHistory(r *rng.R, id, maxBlocks int, wo, wi *bufio.Writer) {
 	// ---- C01: the same request sequence on other instances
 	if det != nil {
 		for _, variant := range []string{"fresh", "restart", "interleaved", "crash"} {
-			res, _ := h.replay(variant, nil, nil)
+			res, _ := h.replay(variant, h.cp, nil)
 			fmt.Fprintf(det, "%d %s %s\n", id, variant, res)
 		}
 		// with genesis consensus parameters (a block gas limit that binds, the allowed consensus key types): an
@@ -2097,7 +2104,7 @@ func (h *hist) replay(variant string, cp *abci.ConsensusParams, ref []string) (s
 			}
 			// C14 through BaseApp: right after the restart a store query that names no height is a query at the last
 			// committed height - same value, same height, same proof verdict as the query that names it
-			if qry != nil && cp == nil {
+			if qry != nil && (cp == nil || cp == h.cp) {
 				lh := app.LastBlockHeight()
 				for _, key := range [][]byte{{0x01}, {0x32}, posTypes.KeyForValByAllVals(h.keys[0].addr)} {
 					for _, prove := range []bool{false, true} {
